@@ -130,14 +130,14 @@ theorem tryNewFn_good (name : Str) (args : List FnArg) (hargs : ∀ a ∈ args, 
         match args, hargs, h with
         | [a], hargs, h =>
           have hg := hargs a (by simp)
-          split at h
-          · cases h
+          by_cases hl : (a.isLit || a.isFilter) = true
+          · simp [hl] at h; cases h
           · by_cases hv : a.isNodesType = true
-            · simp only [hv, if_true] at h; cases h
+            · simp only [hl, hv, if_true, Bool.false_eq_true, if_false] at h; cases h
               rcases nodesType_shape hv with ⟨ss, rfl⟩ | ⟨ss, rfl⟩
               · exact ⟨by simpa [wtFn] using hg.1, by simp [tyFn]⟩
               · exact ⟨by simpa [wtFn] using hg.1, by simp [tyFn]⟩
-            · simp [hv] at h; cases h
+            · simp [hl, hv] at h; cases h
         | [], _, h => cases h
         | _ :: _ :: _, _, h => cases h
       · split at h
@@ -170,5 +170,295 @@ theorem tryNewFn_good (name : Str) (args : List FnArg) (hargs : ∀ a ∈ args, 
             · cases h
             · cases h
               exact ⟨by simpa [wtFn] using wtArgs_of_all args (fun a ha => (hargs a ha).1), by simp [tyFn]⟩
+
+/-- what the builder guarantees at a given fuel, for every input text and EVERY pair tree -/
+structure BuilderWT (fuel : Nat) : Prop where
+  segments : ∀ inp p ss, segmentsB fuel inp p = .ok ss → wtSegs ss = true
+  childSegment : ∀ inp p sg, childSegmentB fuel inp p = .ok sg → wtSeg sg = true
+  segment : ∀ inp p sg, segmentB fuel inp p = .ok sg → wtSeg sg = true
+  selector : ∀ inp p sl, selectorB fuel inp p = .ok sl → wtSel sl = true
+  fnArg : ∀ inp p a, fnArgB fuel inp p = .ok a → goodArg a
+  functionExpr : ∀ inp p f, functionExprB fuel inp p = .ok f → goodFn f
+  test : ∀ inp p t, testB fuel inp p = .ok t → goodTest t
+  logicalExpr : ∀ inp p f, logicalExprB fuel inp p = .ok f → wtFilter f = true
+  logicalExprAnd : ∀ inp p f, logicalExprAndB fuel inp p = .ok f → wtFilter f = true
+  filterAtom : ∀ inp p a, filterAtomB fuel inp p = .ok a → wtAtom a = true
+  comparable : ∀ inp p c, comparableB fuel inp p = .ok c → wtCmp c = true
+
+theorem builderWT_zero : BuilderWT 0 where
+  segments := fun inp p r h => by simp [segmentsB, err] at h
+  childSegment := fun inp p r h => by simp [childSegmentB, err] at h
+  segment := fun inp p r h => by simp [segmentB, err] at h
+  selector := fun inp p r h => by simp [selectorB, err] at h
+  fnArg := fun inp p r h => by simp [fnArgB, err] at h
+  functionExpr := fun inp p r h => by simp [functionExprB, err] at h
+  test := fun inp p r h => by simp [testB, err] at h
+  logicalExpr := fun inp p r h => by simp [logicalExprB, err] at h
+  logicalExprAnd := fun inp p r h => by simp [logicalExprAndB, err] at h
+  filterAtom := fun inp p r h => by simp [filterAtomB, err] at h
+  comparable := fun inp p r h => by simp [comparableB, err] at h
+
+theorem ok_pure {α} (a b : α) (h : (pure a : R α) = .ok b) : a = b := by
+  cases h; rfl
+
+theorem getLast_mem' {α} : ∀ (l : List α) (x : α), l.getLast? = some x → x ∈ l
+  | [], _, h => by simp at h
+  | [a], x, h => by simp at h; simp [h]
+  | a :: b :: l, x, h => by
+    have : (a :: b :: l).getLast? = (b :: l).getLast? := by simp [List.getLast?_cons_cons]
+    rw [this] at h
+    exact List.mem_cons_of_mem _ (getLast_mem' (b :: l) x h)
+
+theorem singularB_sq (inp : Inp) (rule : PairT) (c : Comparable) (h : singularB inp rule = .ok c) : wtCmp c = true := by
+  unfold singularB at h
+  simp only [bind, Except.bind] at h
+  repeat' split at h
+  all_goals first
+    | (cases h; rfl)
+    | (simp [err, pure, Except.pure] at h; try (cases h; rfl))
+    | cases h
+
+theorem builderWT_succ (fuel : Nat) (ih : BuilderWT fuel) : BuilderWT (fuel + 1) where
+  segments := fun inp p ss h => by
+    unfold segmentsB at h
+    refine wtSegs_of_all ss (mapR_all (P := fun s => wtSeg s = true) ?_ _ _ h)
+    intro x y hxy
+    cases hf : firstInner x with
+    | error e => simp [hf] at hxy
+    | ok c => simp only [hf] at hxy; exact ih.segment inp c y hxy
+  childSegment := fun inp p sg h => by
+    unfold childSegmentB at h
+    split at h
+    · cases ok_pure _ _ h; rfl
+    · cases ok_pure _ _ h; rfl
+    · cases hm : mapR (selectorB fuel inp) p.inner with
+      | error e => simp [hm] at h
+      | ok sels =>
+        have hall := mapR_all (P := fun s => wtSel s = true) (fun x y hxy => ih.selector inp x y hxy) _ _ hm
+        rw [hm] at h
+        match sels, hall, h with
+        | [s], hall, h => cases ok_pure _ _ h; simpa [wtSeg] using hall s (by simp)
+        | [], hall, h => cases ok_pure _ _ h; rfl
+        | a :: b :: r, hall, h => cases ok_pure _ _ h; simpa [wtSeg] using wtSels_of_all _ hall
+    · simp [err] at h
+  segment := fun inp p sg h => by
+    unfold segmentB at h
+    repeat' (first | split at h | (dsimp only at h; split at h))
+    all_goals first
+      | (cases h; done)
+      | (simp [err] at h; done)
+      | exact ih.childSegment _ _ _ h
+      | (cases ok_pure _ _ h; simpa [wtSeg] using ih.childSegment _ _ _ ‹childSegmentB fuel inp _ = Except.ok _›)
+  selector := fun inp p sl h => by
+    unfold selectorB at h
+    cases hf : firstInner p with
+    | error e => simp [hf] at h
+    | ok child =>
+      simp only [hf] at h
+      split at h
+      · split at h
+        · cases ok_pure _ _ h; rfl
+        · cases h
+      · cases ok_pure _ _ h; rfl
+      · split at h
+        · split at h
+          · cases ok_pure _ _ h; rfl
+          · cases h
+        · cases h
+      · split at h
+        · cases ok_pure _ _ h; rfl
+        · cases h
+      · cases hf2 : firstInner child with
+        | error e => simp [hf2] at h
+        | ok le =>
+          simp only [hf2] at h
+          cases hl : logicalExprB fuel inp le with
+          | error e => simp [hl] at h
+          | ok f => simp only [hl] at h; cases ok_pure _ _ h; simpa [wtSel] using ih.logicalExpr inp le f hl
+      · simp [err] at h
+  fnArg := fun inp p a h => by
+    unfold fnArgB at h
+    cases hf : firstInner p with
+    | error e => simp [hf] at h
+    | ok next =>
+      simp only [hf] at h
+      split at h
+      · split at h
+        · cases ok_pure _ _ h; exact ⟨rfl, fun f hf => by cases hf⟩
+        · cases h
+      · cases ht : testB fuel inp next with
+        | error e => simp [ht] at h
+        | ok t =>
+          simp only [ht] at h; cases ok_pure _ _ h
+          have g := ih.test inp next t ht
+          exact ⟨g.1, fun f hf => g.2 f (by cases hf; rfl)⟩
+      · cases hl : logicalExprB fuel inp next with
+        | error e => simp [hl] at h
+        | ok f =>
+          simp only [hl] at h; cases ok_pure _ _ h
+          exact ⟨by simpa [wtArg] using ih.logicalExpr inp next f hl, fun f hf => by cases hf⟩
+      · simp [err] at h
+  functionExpr := fun inp p f h => by
+    unfold functionExprB at h
+    simp only at h
+    repeat' split at h
+    all_goals first
+      | (cases h; done)
+      | (simp [err] at h; done)
+      | exact tryNewFn_good _ _ (mapR_all (P := goodArg) (fun x y hxy => ih.fnArg inp x y hxy) _ _ ‹mapR (fnArgB fuel inp) _ = Except.ok _›) f h
+  test := fun inp p t h => by
+    unfold testB at h
+    cases hf : firstInner p with
+    | error e => simp [hf] at h
+    | ok child =>
+      simp only [hf] at h
+      split at h
+      · cases hf2 : firstInner child with
+        | error e => simp [hf2] at h
+        | ok c =>
+          simp only [hf2] at h
+          cases hs : segmentsB fuel inp c with
+          | error e => simp [hs] at h
+          | ok ss => simp only [hs] at h; cases ok_pure _ _ h; exact ⟨by simpa [wtArg] using ih.segments inp c ss hs, fun f hf => by cases hf⟩
+      · cases hf2 : firstInner child with
+        | error e => simp [hf2] at h
+        | ok c =>
+          simp only [hf2] at h
+          cases hs : segmentsB fuel inp c with
+          | error e => simp [hs] at h
+          | ok ss => simp only [hs] at h; cases ok_pure _ _ h; exact ⟨by simpa [wtArg] using ih.segments inp c ss hs, fun f hf => by cases hf⟩
+      · cases hfe : functionExprB fuel inp child with
+        | error e => simp [hfe] at h
+        | ok f =>
+          simp only [hfe] at h; cases ok_pure _ _ h
+          have g := ih.functionExpr inp child f hfe
+          exact ⟨by simpa [wtArg] using g.1, fun f' hf' => by cases hf'; exact g.2⟩
+      · simp [err] at h
+  logicalExpr := fun inp p f h => by
+    unfold logicalExprB at h
+    cases hm : mapR (logicalExprAndB fuel inp) p.inner with
+    | error e => simp [hm] at h
+    | ok fs =>
+      have hall := mapR_all (P := fun x => wtFilter x = true) (fun x y hxy => ih.logicalExprAnd inp x y hxy) _ _ hm
+      rw [hm] at h
+      match fs, hall, h with
+      | [g], hall, h => cases ok_pure _ _ h; exact hall _ (by simp)
+      | [], hall, h => cases ok_pure _ _ h; rfl
+      | a :: b :: r, hall, h => cases ok_pure _ _ h; simpa [wtFilter] using wtFilters_of_all _ hall
+  logicalExprAnd := fun inp p f h => by
+    unfold logicalExprAndB at h
+    generalize hm : mapR _ (Pair.inner p) = m at h
+    cases m with
+    | error e => simp at h
+    | ok fs =>
+      have hall := mapR_all (P := fun x => wtFilter x = true) (fun x y hxy => by
+        cases ha : filterAtomB fuel inp x with
+        | error e => simp [ha] at hxy
+        | ok a => simp only [ha] at hxy; cases hxy; simpa [wtFilter] using ih.filterAtom inp x a ha) _ _ hm
+      match fs, hall, h with
+      | [g], hall, h => cases ok_pure _ _ h; exact hall _ (by simp)
+      | [], hall, h => cases ok_pure _ _ h; rfl
+      | a :: b :: r, hall, h => cases ok_pure _ _ h; simpa [wtFilter] using wtFilters_of_all _ hall
+  filterAtom := fun inp p a h => by
+    unfold filterAtomB at h
+    cases hf : firstInner p with
+    | error e => simp [hf] at h
+    | ok rule =>
+      simp only [hf] at h
+      split at h
+      · -- paren_expr
+        cases hm : mapR (logicalExprB fuel inp) (rule.inner.filter (isRule .r_logical_expr)) with
+        | error e => simp [hm] at h
+        | ok es =>
+          have hall := mapR_all (P := fun x => wtFilter x = true) (fun x y hxy => ih.logicalExpr inp x y hxy) _ _ hm
+          simp only [hm] at h
+          cases hl : es.getLast? with
+          | none => simp [hl, err] at h
+          | some e =>
+            simp only [hl] at h; cases ok_pure _ _ h
+            simpa [wtAtom] using hall e (getLast_mem' _ _ hl)
+      · -- comp_expr
+        split at h
+        · rename_i l o r _ _
+          cases hl : comparableB fuel inp l with
+          | error e => simp [hl] at h
+          | ok lhs =>
+            simp only [hl] at h
+            cases hr : comparableB fuel inp r with
+            | error e => simp [hr] at h
+            | ok rhs =>
+              simp only [hr] at h
+              cases ho : cmpOpOf (o.str inp) with
+              | error e => simp [ho] at h
+              | ok op =>
+                simp only [ho] at h; cases ok_pure _ _ h
+                simp [wtAtom, ih.comparable inp l lhs hl, ih.comparable inp r rhs hr]
+        · simp [err] at h
+      · -- test_expr
+        cases hm : mapR (testB fuel inp) (rule.inner.filter (isRule .r_test)) with
+        | error e => simp [hm] at h
+        | ok ts =>
+          have hall := mapR_all (P := goodTest) (fun x y hxy => ih.test inp x y hxy) _ _ hm
+          simp only [hm] at h
+          cases hl : ts.getLast? with
+          | none => simp [hl, err] at h
+          | some t =>
+            have g := hall t (getLast_mem' _ _ hl)
+            simp only [hl] at h
+            cases t with
+            | fn tf =>
+              simp only at h
+              by_cases hc : tf.isComparable = true
+              · simp [hc, err] at h
+              · have hc' : tf.isComparable = false := by simpa using hc
+                simp only [hc', Bool.false_eq_true, if_false] at h
+                cases ok_pure _ _ h
+                have hw : wtFn tf = true := by simpa [wtArg] using g.1
+                simp [wtAtom, noncomparable_logical hc' (g.2 tf rfl), hw]
+            | rel ss => simp only at h; cases ok_pure _ _ h; simpa [wtAtom, wtArg] using g.1
+            | abs ss => simp only at h; cases ok_pure _ _ h; simpa [wtAtom, wtArg] using g.1
+      · simp [err] at h
+  comparable := fun inp p c h => by
+    unfold comparableB at h
+    cases hf : firstInner p with
+    | error e => simp [hf] at h
+    | ok rule =>
+      simp only [hf] at h
+      split at h
+      · split at h
+        · cases ok_pure _ _ h; rfl
+        · cases h
+      · exact singularB_sq inp rule c h
+      · cases hfe : functionExprB fuel inp rule with
+        | error e => simp [hfe] at h
+        | ok tf =>
+          simp only [hfe] at h
+          have g := ih.functionExpr inp rule tf hfe
+          by_cases hc : tf.isComparable = true
+          · simp only [hc, if_true] at h; cases ok_pure _ _ h
+            simp [wtCmp, comparable_value hc g.2, g.1]
+          · simp [hc, err] at h
+      · simp [err] at h
+
+theorem builderWT : ∀ fuel, BuilderWT fuel
+  | 0 => builderWT_zero
+  | fuel+1 => builderWT_succ fuel (builderWT fuel)
+
+/-- C07 layer 6b: every query the parser model accepts is well-typed (RFC 9535 2.4.3) -/
+theorem parse_wellTyped (s : Str) (q : List Segment) (h : parseJsonPath s = .ok q) : wtSegs q = true := by
+  unfold parseJsonPath at h
+  split at h
+  · simp [err] at h
+  · simp only at h
+    split at h
+    · split at h
+      · simp only [bind, Except.bind] at h
+        split at h
+        · cases h
+        · split at h
+          · cases h
+          · exact (builderWT _).segments _ _ q h
+      · simp [err] at h
+    · simp [err] at h
 
 end JP
